@@ -110,6 +110,27 @@ def _worker(ys):
                 conv, fields = CAL[cal]
                 src = ymd if conv is None else mk(tu.func(conv)).run([ymd])
                 fn = tu.func(fname)
+                if cal == "ymcw" and isinstance(src, dict) and src.get("w") == 7 and (d.month, d.day) in FAR_STARTS | {(1, 4), (2, 28), (8, 31)}:
+                    # Sunday may be spelt 0 in this calendar (the parser hands it on like that): the same day, the same results
+                    alt = dict(src, w=0)
+                    for t in (-7, -6, -5, -1, 1, 4, 5, 6, 10):
+                        try:
+                            r0 = mk(fn).run([dict(alt), t])
+                        except fold.Abort as e:
+                            r0 = None
+                        n += 1
+                        if unit == "b":
+                            kb = (d.toordinal(), t)
+                            if kb not in bcache:
+                                bcache[kb] = _bstep(d, t).toordinal()
+                            exp0 = fields_of(cal, bcache[kb])
+                        else:
+                            exp0 = fields_of(cal, d.toordinal() + (7 * t if unit == "w" else t))
+                        got0 = tuple((r0.get(f) if f != "w" else (r0.get(f) or 7)) if isinstance(r0, dict) else None for f in fields)
+                        if got0 != exp0:
+                            lst = bad.setdefault((fname, cal), [])
+                            if len(lst) < 400:
+                                lst.append((d.isoformat() + " (Sunday spelt 0)", t, str(got0), str(exp0)))
                 W = WINDOW[unit]
                 if (cal, unit) == ("ymcw", "d") and not every:
                     # the weekday enters a table index, so this adder folds point by point (7 ms each): the quick tier takes a third
